@@ -1,3 +1,4 @@
+#![allow(static_mut_refs, unused_imports, dead_code, unused_unsafe)]
 // Kani harnesses for src/exd.rs (child module: builds EXD/EXH values directly, calls read_row).
 use super::*;
 use crate::exh::*;
@@ -371,4 +372,19 @@ fn c05_pipeline_witness() {
     let rows = exd.read_row(&exh, 7).unwrap();
     core::mem::forget(rows);
     assert!(false);
+}
+
+// ------------------------------------------------------------------------------------- C18
+/// a row index entry that points past the end of the data must be rejected, not crash
+#[kani::proof]
+#[kani::unwind(20)]
+#[kani::stub(EXD::read_data_raw, guarded_read_data_raw)]
+fn c18_read_row_cell_past_end() {
+    let fixed: [u8; FIXED] = kani::any();
+    let exd = one_row_exd(7, &fixed, &[]);
+    // column offset beyond the row: the cell lies outside the file
+    let exh = exh_with(vec![ExcelColumnDefinition { data_type: ColumnDataType::UInt32, offset: 200 }], FIXED as u16);
+    let r = exd.read_row(&exh, 7);
+    kani::cover!(true);
+    core::mem::forget((r, exd, exh));
 }
